@@ -349,8 +349,14 @@ macro_rules! bezier_impl_cubic_axis {
                 // There are two Real solutions for the equation
                 let discriminant_sqrt = discriminant.sqrt();
 
-                let first_extremum = (-b - discriminant_sqrt) / (a + a);
-                let second_extremum = (-b + discriminant_sqrt) / (a + a);
+                // cancellation-free form: q = -(b + sign(b) sqrt(disc)) / 2, roots q/a and c/q
+                let (first_extremum, second_extremum) = if b < T::zero() {
+                    let q = (-b + discriminant_sqrt) / two;
+                    (c / q, q / a)
+                } else {
+                    let q = (-b - discriminant_sqrt) / two;
+                    (q / a, c / q)
+                };
 
                 if is_between01(first_extremum) {
                     if is_between01(second_extremum) {
